@@ -411,6 +411,26 @@ def has_mon(body):
         if isinstance(nd, Match) and any(has_mon(b) for _, b in nd.arms): return True
     return False
 
+RENDER_REF_CONDS = set()
+
+def _negations(c):
+    """textual negations of a rendered Bool condition"""
+    out = []
+    c = c.strip()
+    if c.startswith('(!') and c.endswith(')'):
+        inner = c[2:-1].strip()
+        out.append(inner)
+        if inner.startswith('(') and inner.endswith(')'): out.append(inner[1:-1])
+    else:
+        out.append('(!' + c + ')')
+        out.append('(!(' + c + '))')
+    m = re.match(r'^\((.*) (!=|==) (.*)\)$', c)
+    if m: out.append('(' + m.group(1) + (' == ' if m.group(2) == '!=' else ' != ') + m.group(3) + ')')
+    return out
+
+def _ref_conds(block):
+    return set(m.group(1).strip() for m in re.finditer(r'^\s*if (.*) then\s*$', block or '', flags=re.M))
+
 def render(body, ind, mon):
     out = []
     pad = '  ' * ind
@@ -420,10 +440,16 @@ def render(body, ind, mon):
             ty = f' : {nd.ty}' if nd.ty else ''
             out.append(f'{pad}let {nd.name}{ty} {arrow} {nd.expr}')
         elif isinstance(nd, If):
-            out.append(f'{pad}if {nd.cond} then')
-            out += render_block(nd.th, ind + 1, mon)
+            cond, th, el = nd.cond, nd.th, nd.el
+            # `if !c {A} else {B}` and `if c {B} else {A}` are the same program: when the reference definition tests the
+            # opposite polarity of the same condition, render it the reference's way (Bool negation is exact)
+            if cond not in RENDER_REF_CONDS:
+                for nc in _negations(cond):
+                    if nc in RENDER_REF_CONDS: cond, th, el = nc, el, th; break
+            out.append(f'{pad}if {cond} then')
+            out += render_block(th, ind + 1, mon)
             out.append(f'{pad}else')
-            out += render_block(nd.el, ind + 1, mon)
+            out += render_block(el, ind + 1, mon)
         elif isinstance(nd, Match):
             out.append(f'{pad}match {nd.scrut} with')
             for pat, b in nd.arms:
@@ -1454,11 +1480,14 @@ def main():
         for f in named:
             if results[f.lean_name][0] == 'bad' and f.lean_name in ctx.fns:
                 del ctx.fns[f.lean_name]; changed = True
+    global RENDER_REF_CONDS
+    refb_early = _ref_blocks(os.path.join(out_path, 'JsModel.lean' if JS else 'Model.lean'))
     for f in named:
         r = results[f.lean_name]
         if r[0] == 'bad':
             report['unsupported'].append((f.lean_name, r[1])); continue
         _, tr, body = r
+        RENDER_REF_CONDS = _ref_conds(refb_early.get(f.lean_name))
         try:
             params = []
             for (i, t), nm in zip(f.params, tr.param_names):
